@@ -180,6 +180,17 @@ def run_fn(case):
             res.see("leaf_law_checks")
         nontrivial |= 0 < tau < 1
     on0 = leaves(net)
+    if case["seed"] % 2:
+        # a target that went wrong before (diverged run, placeholder): a hard
+        # update replaces it whatever it holds
+        import jax
+        import jax.numpy as jnp
+        from flax import nnx
+        bad = iter([jnp.inf, jnp.nan, -jnp.inf] * 50)
+        nnx.update(target, jax.tree.map(
+            lambda v: v.at[(0,) * v.ndim].set(next(bad)),
+            nnx.state(target, nnx.Param)))
+        res.see("hard_updates_of_non_finite_targets")
     ok, _ = guarded(res, "C06/raises/hard_target_net_update", hard_target_net_update,
                     net, target)
     if not ok:
